@@ -71,6 +71,11 @@ func genC11(seed uint64, i int, tier string) *Scenario {
 		n += r.Range(2, 9)
 	}
 	sc.Init = genStore(r, n, pick(r, []string{StoreMixed, StoreInts, StoreText}))
+	if r.Chance(0.004) {
+		sc.Cfg.Batch = pick(r, []int{64, 255, 256, 257, 1000})
+		sc.Init = genStore(r, pick(r, []int{255, 256, 257, 300, 800, 1100}), pick(r, []string{StoreInts, StoreMixed}))
+		sc.Family = "scale"
+	}
 	if r.Chance(0.15) {
 		// the empty string is a legal key
 		sc.Init = append([]KV{{"", pick(r, valuePoolText)}}, sc.Init...)
